@@ -45,6 +45,14 @@ def plan(tier, seed, scale):
         for i in range(n):
             shards.append({'seed': seed, 'slice': i, 'of': n, 'tier': tier,
                            'hashseed': 0, 'pairs': True})
+    # accepted write requests drawn from random histories on random states
+    n_rand = int((16 if tier == 'quick' else 480) * scale)
+    per = 2 if tier == 'quick' else 30
+    for i in range(0, n_rand, per):
+        shards.append({'seed': seed, 'slice': 0, 'of': 1, 'tier': tier,
+                       'hashseed': (i // per) % 3, 'pairs': False,
+                       'random': True, 'first': i,
+                       'count': min(per, n_rand - i)})
     return shards
 
 
@@ -71,10 +79,15 @@ def run_shard(spec, res):
         names = sorted(corp) + STARTUP
         mine = [n for i, n in enumerate(names)
                 if i % spec['of'] == spec['slice']]
+        snap_of = {}
+        if spec.get('random'):
+            corp, snap_of = faults.random_corpus(svc, spec)
+            mine = sorted(corp)
+            res.count('random_corpus_requests', len(mine))
 
         def prepare(name):
             """restore the start state for the named case -> start dump"""
-            svc.app.restore(base)
+            svc.app.restore(snap_of.get(name, base))
             if name in STARTUP:
                 con = sqlite3.connect(svc.app.db_path)
                 import os_traits
